@@ -1583,7 +1583,7 @@ impl Writer {
     match self.qos_policies.compliance_failure_wrt(requested_qos) {
       // matched QoS
       None => {
-        let change = self.matched_reader_update(reader_proxy);
+        let change = self.matched_reader_update(reader_proxy, requested_qos);
         if change > 0 {
           self.matched_readers_count_total += change;
           self.send_status(DataWriterStatus::PublicationMatched {
@@ -1638,7 +1638,11 @@ impl Writer {
   // Update the given reader proxy. Preserve data we are tracking.
   // return 0 if the reader already existed
   // return 1 if it was new ( = count of added reader proxies)
-  fn matched_reader_update(&mut self, updated_reader_proxy: &RtpsReaderProxy) -> i32 {
+  fn matched_reader_update(
+    &mut self,
+    updated_reader_proxy: &RtpsReaderProxy,
+    requested_qos: &QosPolicies,
+  ) -> i32 {
     let mut new = 0;
     let is_volatile = self.qos().is_volatile(); // Get this in advance to work with the borrow checker
     self
@@ -1648,10 +1652,12 @@ impl Writer {
       .or_insert_with(|| {
         new = 1;
         let mut new_proxy = updated_reader_proxy.clone();
-        if is_volatile {
+        if is_volatile || !requested_qos.requests_historical_data() {
           // With Durabilty::Volatile QoS we won't send the sequence numbers which existed
           // before matching with this reader. Therefore we set the reader as pending GAP
-          // for all existing sequence numbers
+          // for all existing sequence numbers.
+          // The same goes for a Volatile reader of a non-Volatile writer: it has
+          // not asked for anything that was written before it appeared.
           new_proxy.set_pending_gap_up_to(self.history_buffer.last_change_sequence_number());
         }
         new_proxy
